@@ -18,7 +18,7 @@ PROPERTY = {
                'sibling experiment': 'a sibling entry of the focus (inside and outside the deleting node) gets an arbitrary priority / different content; every other path must come out identical'},
     'outside': ['wrapping under list indices', 'chains longer than 2'],
     'per_split_timeout': {'quick': 600, 'thorough': 1800},
-    'wall_budget': {'quick': 900, 'thorough': 3400},
+    'wall_budget': {'quick': 1500, 'thorough': 7000},
 }
 
 CHAINS = [['x'], ['p'], ['w', 'p'], ['z', 'x'], ['n', 'w']]
